@@ -33,10 +33,10 @@ var c05Letters = func() []rec.Call {
 }()
 
 type c05Case struct {
-	VB      int   `json:"viewbox"`
-	Rect    int   `json:"rect"`
-	Letters []int `json:"letters"`
-	Reps    int   `json:"reps,omitempty"`
+	VB      int    `json:"viewbox"`
+	Rect    int    `json:"rect"`
+	Letters []int  `json:"letters"`
+	Reps    int    `json:"reps,omitempty"`
 	Desc    string `json:"desc,omitempty"`
 }
 
@@ -175,8 +175,12 @@ func (st *c05State) check(cs *c05Case) {
 		}
 		return math.Abs(float64(got)-want) <= 8*ulp32(mag)+1e-30
 	}
-	absX := func(x float32) (float64, float64) { return m.AbsX(float64(x)), math.Max(math.Abs(float64(x)), math.Abs(m.OX)) * m.SX }
-	absY := func(y float32) (float64, float64) { return m.AbsY(float64(y)), math.Max(math.Abs(float64(y)), math.Abs(m.OY)) * m.SY }
+	absX := func(x float32) (float64, float64) {
+		return m.AbsX(float64(x)), math.Max(math.Abs(float64(x)), math.Abs(m.OX)) * m.SX
+	}
+	absY := func(y float32) (float64, float64) {
+		return m.AbsY(float64(y)), math.Max(math.Abs(float64(y)), math.Abs(m.OY)) * m.SY
+	}
 	smooth := smNone
 	var ctlX, ctlY float64
 	nontrivial := false
